@@ -24,6 +24,12 @@ CHECKS = {
     'C17': dict(tech='verdict table EqModel.tla enumerated exhaustively by TLC (class x mutation x magnitude x tolerance x direction); every state replayed on real objects with x.equals(y) (binding A)',
                 text='The specification fixes what equals must answer for a copy, for a single-component perturbation far below / far above the tolerance (band in between left open), and for every structural difference, independent of direction; TLC enumerates the complete table (about 9 000 comparison cases incl. all cross-type pairs within a category) and each case is executed on real poses, vertices, odometry / landmark / custom edges and graphs; an exception is a violation.',
                 ref='4 C17', note='Pairs are drawn within one category (pose/pose, vertex/vertex, edge/edge, graph/graph). Perturbation exponents {-12,-9,-6,-3} below, {3,4,6} above, {-1,0,1} in the band. Two measurements of one custom class that differ only in float vs 1-element array are not required to compare unequal.'),
+    'C12': dict(tech='PlusCal model of the optimize loop model-checked against a closed form (TLC: invariant, liveness, splitting theorem); recorded optimizer calls validated against GraphSLAM!OptCall by Trace_GraphSLAM (binding B)',
+                text='OptControl.tla mirrors the loop label by label over an abstract chi^2 sequence; TLC proves for every stop function, start state and max_iter <= 5..6 that the report equals the closed form Outcome (first stopping iteration, converged, num_iterations, length and completeness of iteration_results, which chi^2 each entry holds, printed rows), that the loop terminates, and that every composition of a run into consecutive calls reaches the same state. Real optimizer calls (converging, diverging, NaN; tol literal or placed just above the k-th relative decrease so every stop position occurs; verbose on/off; random splits) are recorded along TLC-generated scenarios and each event is validated against Outcome with stop classes computed from independently observed chi^2 values; poses must be bitwise equal for verbose on/off and split runs.',
+                ref='4 C12', note='The independent chi^2 sequence comes from calc_chi2() between single-iteration calls on a deep copy (L3: floats are abstracted to stop classes and equality booleans by the recorder; classes within 1e-9 relative of tol are ambiguous).'),
+    'C15': dict(tech='frame conditions of every GraphSLAM action imposed on recorded executions: TLC -simulate generates call sequences, the real graph is stepped along them, Trace_GraphSLAM validates every event (binding B)',
+                text='Every public call (15 kinds of query incl. numerical Jacobians, contributions, export, plot, pose operators, copies; SetFixed; optimize) is an action of GraphSLAM with an explicit frame condition. TLC-generated behaviours (<= 30 / 50 actions) are executed on real graphs of every kind incl. aliased pose objects; after EVERY call bitwise digests of all poses, measurements, information matrices, offsets, flags, ids and orders are logged and TLC checks the action predicate on (state, state\'), plus determinism of repeated queries while poses are unchanged.',
+                ref='4 C15', note='Digests are SHA-1 of the float64 bytes. plot uses the Agg backend. Violations of the optimize frame that involve a NaN solve are reported under C06.'),
 }
 NA_REASON = 'check not built yet in this round (planned, see DESIGN.md section 4)'
 
